@@ -81,16 +81,42 @@ pub fn nontrivial(p: &str, o: &Obs) -> bool {
     "C07" => o.nt_c07, "C08" => o.nt_c08, "C09" => o.nt_c09, "C19" => o.nt_c19, _ => o.fired > 0 }
 }
 
+/// What answers a delivered key event: the real mapper (world A), or the outputs the real loop
+/// wrote for that event when the whole path reader -> loop -> writer was run (world E).
+pub trait Stepper {
+  fn step(&mut self, e: &Event) -> crate::key_transforms::StepResult;
+  fn release_all(&mut self) -> Vec<Event>;
+}
+impl Stepper for Mapper {
+  fn step(&mut self, e: &Event) -> crate::key_transforms::StepResult { Mapper::step(self, e.clone()) }
+  fn release_all(&mut self) -> Vec<Event> { Mapper::release_all(self) }
+}
+/// Outputs recorded per delivered event by an end-to-end run. The repeat request is not visible
+/// end to end, so oracles that need it (C06 twin, C09) are not used with this stepper.
+pub struct Precomputed { pub steps: Vec<Vec<Event>>, pub i: usize }
+impl Stepper for Precomputed {
+  fn step(&mut self, _e: &Event) -> crate::key_transforms::StepResult {
+    let events = self.steps.get(self.i).cloned().unwrap_or_default();
+    self.i += 1;
+    crate::key_transforms::StepResult { events, repeat: ResultingRepeat::Disabled }
+  }
+  fn release_all(&mut self) -> Vec<Event> { vec![] }
+}
+
 /// Execute a case against the real mapper and evaluate the enabled oracles after every op.
 /// Returns the first violation. A panic inside the mapper propagates (callers catch it).
 pub fn execute(case: &CaseA, en: &En, obs: &mut Obs) -> Option<Violation> {
+  let mut mapper = Mapper::for_layout(&case.layout);
+  execute_with(case, en, obs, &mut mapper)
+}
+
+pub fn execute_with(case: &CaseA, en: &En, obs: &mut Obs, mapper: &mut dyn Stepper) -> Option<Violation> {
   let l = &case.layout;
   let has_abs = l.mappings.iter().any(|m| !m.absorbing.is_empty());
   let lk = layout_keys(l);
   let dist = case.dist;
   let mut lh = H::new(); hash_layout(&mut lh, l); let lhash = lh.fin();
   let mut dg = H::new();
-  let mut mapper = Mapper::for_layout(l);
   let mut twin: Option<Mapper> = None;
   let mut phys: Vec<KeyCode> = vec![];
   let mut out: Vec<KeyCode> = vec![];
@@ -140,7 +166,7 @@ pub fn execute(case: &CaseA, en: &En, obs: &mut Obs) -> Option<Violation> {
     let in_effect_before = r.in_effect.clone();
     let absorbed_before_empty = r.absorbed.is_empty();
     match ev { Pressed(k) => { if !phys.contains(k) { phys.push(*k); } } Released(k) => { phys.retain(|x| x != k); } }
-    let res = mapper.step(ev.clone());
+    let res = mapper.step(ev);
     let ro = r.step(l, ev);
     for e in &res.events { hash_ev(&mut dg, e); }
     dg.u(match &res.repeat { ResultingRepeat::Disabled => 1, ResultingRepeat::NoChange => 2, ResultingRepeat::Repeating { .. } => 3 });
